@@ -6,6 +6,7 @@ src/utils/str.py, src/utils/gen.py and plugins/Config/plugin.py it relies on).
   Values.lean  String family, Boolean, Integer family, Space/Comma separated lists
   File.lean    registry.close line format, open_registry, escape/unescape/split/join of names
   Wrap.lean    NormalizedString.serialize: textwrap word runs, line filling, continuation lines
+  Validators.lean  OnlySomeStrings, guarded String classes, ValidQuotes, Json/Float/Regexp layers (engines = parameters)
   Tree.lean    the live value tree: _wasSet, _setValue(inherited), _makeChild, getSpecific,
                Config reset, which nodes are written, start-up registration from the cache
 
@@ -13,6 +14,7 @@ This file ties them together: what a save followed by a load gives.
 -/
 import LimnoriaModel.C15.Tree
 import LimnoriaModel.C15.Wrap
+import LimnoriaModel.C15.Validators
 namespace C15
 open Py
 
